@@ -1266,13 +1266,14 @@ def net_cost_key(net):
     return (len(net.inputs), max(net.sizes.values(), default=1))
 
 
-def explicit_call(rng, net, flavour, container, entry):
+def explicit_call(rng, net, flavour, container, entry, same_order=False):
     n = len(net.inputs)
     if flavour == "linear":
         spec = {"kind": "linear", "path": rand_linear_path(rng, n), "container": container}
     else:
-        inds = list(net.indices())
-        rng.shuffle(inds)
+        inds = sorted(net.indices())
+        if not same_order:              # same_order: the very same tuple of names for different networks
+            rng.shuffle(inds)
         spec = {"kind": "edge", "inds": inds, "container": container}
     return {"entry": entry, "net": net.json(), "opt": spec, "cache": rng.random() < 0.3,
             "partial_ok": flavour == "edge" and entry == "path"}
@@ -1305,14 +1306,20 @@ def gen_session(rng, presets, kind, focus=None):
             nets = nets[:2] + [nets[0]] + nets[2:]
         for net in nets:
             p = rng.choice(group)
-            if any(q["compressed"] for q in group) and ("scalar" in net.features() or len(net.inputs) < 3):
-                net = ring_net(rng.randint(3, 6), rng.choice([2, 3]))    # non-exact finders: plain nets only
+            if any(q["compressed"] for q in group) and (set(net.features()) & {"scalar", "disconnected"}
+                                                       or len(net.inputs) < 3):
+                # compressed (non-exact, experimental) finders are outside the property's scope: 'greedy-span'
+                # stops at the first component of a disconnected network, the compressed greedy finder takes
+                # max() of nothing on index-free groups. They are still run in sequences (for state carried
+                # between calls), on plain connected networks only.
+                net = rng.choice([ring_net, chain_net])(rng.randint(3, 8), rng.choice([2, 3, 5]))
             calls.append({"entry": rng.choice(["path", "tree"]), "net": net.json(),
                           "opt": {"kind": "preset", "name": p["name"]}, "cache": rng.random() < 0.3,
                           "limit": 300 if slow else 60})
         return (p0["name"] if kind == "preset" else "shared:" + p0["target"]), calls
     fast = [p for p in avail if not p["slow"] and not p["compressed"]
             and not p["name"].startswith(("optimal", "dp", "dynamic"))]
+    same_order = rng.random() < 0.4
     for _ in range(rng.randint(3, 6)):
         what = rng.choice(["linear", "edge", "small-tree", "preset"] if kind == "mixed" else
                           ["linear", "linear", "edge", "edge", "small-tree"])
@@ -1326,10 +1333,12 @@ def gen_session(rng, presets, kind, focus=None):
                           "opt": {"kind": "preset", "name": rng.choice(fast)["name"]}, "cache": rng.random() < 0.3})
         else:
             net = ladder_net(rng, 2, 8)
-            if what == "edge" and not net.indices():
-                net = ring_net(4)
+            if what == "edge" and (not net.indices() or same_order):
+                # rings and chains over the same index names 0..m-1: different networks, equal edge paths
+                m = rng.randint(3, 6)
+                net = ring_net(m, rng.choice([2, 3])) if rng.random() < 0.5 else chain_net(m - 1, rng.choice([2, 3]))
             calls.append(explicit_call(rng, net, what, rng.choice(["tuple", "tuple", "list"]),
-                                       rng.choice(["path", "tree"])))
+                                       rng.choice(["path", "tree"]), same_order=same_order))
     return kind, calls
 
 
@@ -1639,20 +1648,24 @@ def check_random_optimizer(ctx, drv, rng):
     ctx.count("random_optimizer")
     if st != "ok":
         return          # judged by the catalogue entry of the same finder
-    draws, vals = [], [v for _, _, v in rec.log]
-    k = 0
-    while k < len(vals):
-        i = vals[k]
+    # the accepted pairs, and whether every range asked of the PRNG is the model's: positions 0..Nrem
+    draws, ranges_ok, k, step = [], True, 0, 0
+    while k < len(rec.log):
+        nrem = n - 1 - step
+        a, b, i = rec.log[k]
         k += 1
+        ranges_ok = ranges_ok and (a == 0 and b == nrem)
         j = i
-        while j == i and k < len(vals):
-            j = vals[k]
+        while j == i and k < len(rec.log):
+            a, b, j = rec.log[k]
             k += 1
+            ranges_ok = ranges_ok and (a == 0 and b == nrem)
         draws.append([i, j])
+        step += 1
     r = drv.call("c05.random_path", n=n, draws=draws)
     ctx.traces += 1
-    if r.get("path") != path or not r.get("draws_ok"):
-        ctx.corr_broken("RandomOptimizer: path / draws differ from Model randomPath / drawsOK",
+    if r.get("path") != path or not r.get("draws_ok") or not ranges_ok:
+        ctx.corr_broken("RandomOptimizer: path / draws / ranges drawn from differ from Model randomPath / drawsOK",
                         {"n": n, "draws": draws, "real": path, "model": r, "ranges": rec.log[:6]})
 
 
